@@ -223,6 +223,18 @@ def build_pool(name, rng, size=40, respell=0.3, need_hash=True):
                             pass
             except Exception:  # noqa: BLE001
                 pass
+        if rng.random() < 0.4:
+            # a digit run written with a leading zero (equal where the scheme reads a number, another version where it
+            # reads text: either way the two must be ranked consistently)
+            import re
+            runs = [m.start() for m in re.finditer(r"[0-9]+", s)]
+            if runs:
+                i = rng.choice(runs[-2:] if rng.random() < 0.6 else runs)
+                s7 = s[:i] + "0" + s[i:]
+                try:
+                    p.insert(s7, S.make(name, s7))
+                except Exception:  # noqa: BLE001
+                    pass
         for s6 in word_neighbours(name, s, rng) + (cut_tails(s) if rng.random() < 0.4 else []):
             try:
                 p.insert(s6, S.make(name, s6))
